@@ -103,8 +103,8 @@ func c15(c *core.Ctx, r *core.Report) {
 	nb := 0
 	for _, T := range bimpls {
 		m := c.DeclaredMethod(T, "SetConfig")
-		if m == nil {
-			continue // promoted from an embedded Binder: delegates
+		if m == nil || forwardsToHeld(m) {
+			continue // promoted from an embedded Binder, or handed on to a held one: delegates
 		}
 		nb++
 		cons := "SetConfig@" + core.FnName(m)
@@ -466,24 +466,7 @@ func c15ArgsLoader(c *core.Ctx, r *core.Report) {
 				}
 				return string(s)
 			}
-			t.ext["strings.HasPrefix"] = func(ip *absint.Interp, a []absint.Value) absint.Value {
-				return absint.Bool(strings.HasPrefix(str(a[0]), str(a[1])))
-			}
-			t.ext["strings.TrimPrefix"] = func(ip *absint.Interp, a []absint.Value) absint.Value {
-				return absint.Str(strings.TrimPrefix(str(a[0]), str(a[1])))
-			}
-			t.ext["strings.SplitN"] = func(ip *absint.Interp, a []absint.Value) absint.Value {
-				n, _ := a[2].(absint.Int)
-				l := &absint.List{}
-				for _, p := range strings.SplitN(str(a[0]), str(a[1]), int(n)) {
-					l.Elems = append(l.Elems, absint.Str(p))
-				}
-				return l
-			}
-			t.ext["strings.Cut"] = func(ip *absint.Interp, a []absint.Value) absint.Value {
-				b, af, f := strings.Cut(str(a[0]), str(a[1]))
-				return absint.Tuple{absint.Str(b), absint.Str(af), absint.Bool(f)}
-			}
+			stringModels(t) // the standard string functions on literal texts
 			t.ext["github.com/go-kid/properties.New"] = func(ip *absint.Interp, a []absint.Value) absint.Value {
 				doc = &absint.MapVal{M: map[string]absint.Value{}}
 				return doc
